@@ -51,6 +51,26 @@ CHECKS = {
              'growth; says nothing about constant factors.',
         note='budget = 20000+20000*n traced lines inside txdbus (generous: measured worst legal-ish input 12.5k/byte); '
              + TRUST),
+    'C06': dict(
+        category='exploration', design_ref='DESIGN.md section 3 C06',
+        technique='bounded-exhaustive + random line sequences in lock step with a reference server state machine (model-based testing)',
+        text='All sequences of authentication lines to length 4/5 over a 12-letter abstract alphabet x 3 mechanism-outcome '
+             'scripts, and random ones to length 40, are fed to the real BusAuthenticator (scripted mechanisms) in lock '
+             'step with a nondeterministic reference server model from the spec, then again under another read splitting '
+             '(identical transcript required); an independent safety invariant is evaluated on the raw transcript; '
+             'framing faults at the 16 KiB boundary; the real EXTERNAL / DBUS_COOKIE_SHA1 / ANONYMOUS mechanisms against '
+             'a spec-following client with right and perturbed cookie responses.',
+        note='mechanism outcomes are scripted through the IBusAuthenticationMechanism interface; peer credentials come '
+             'from a stub socket; ' + TRUST),
+    'C07': dict(
+        category='exploration', design_ref='DESIGN.md section 3 C07',
+        technique='bounded-exhaustive + random server-line sequences with history rules; full handshakes against a reference server actor',
+        text='All sequences of server lines to length 4/5 over 11 abstract lines x UNIX / non-UNIX transport (and random '
+             'ones to length 30) are fed to the real ClientAuthenticator; rules S1-S4 (BEGIN only after OK and the fd '
+             'negotiation answer, mechanism order, no stall, close when outside the protocol) are evaluated on the '
+             'write/close history and the transcript must not depend on read splitting; 56 full handshakes against a '
+             'spec-following server actor must complete.',
+        note='liveness (never stalls) is decided as bounded safety: the harness is the only event source; ' + TRUST),
     'C18': dict(
         category='exploration', design_ref='DESIGN.md section 3 C18',
         technique='bounded-exhaustive string enumeration + Hypothesis, differential against hand-written grammar recognisers',
